@@ -1,6 +1,7 @@
 package verif
 
 import (
+	"errors"
 	"hash"
 	"io"
 )
@@ -65,7 +66,7 @@ var randCounter int
 func stubReadFull(r io.Reader, buf []byte) (int, error) {
 	randCounter++
 	if AnyBool("rand.fail#" + itoa(randCounter)) {
-		return 0, io.ErrUnexpectedEOF
+		return 0, errors.New("entropy source failed")
 	}
 	AnyBytes("rand#"+itoa(randCounter), buf)
 	return len(buf), nil
